@@ -66,6 +66,7 @@ var repoDir = func() string {
 	}
 	return "/repo"
 }()
+
 const repoModule = "gopkg.in/typ.v4"
 
 // LoadEngine loads package dir pkgRel of /repo with the given overlay files injected.
@@ -153,14 +154,14 @@ var initPackagesExtra = map[string]bool{
 }
 
 type Worker struct {
-	id        int
-	eng       *Engine
-	tt        *TermTable
-	pr        *Printer
-	sol       *Solver
-	fninfo    map[*ssa.Function]*fnInfo
-	intrCache map[*ssa.Function]intrFn
-	runs      int
+	id             int
+	eng            *Engine
+	tt             *TermTable
+	pr             *Printer
+	sol            *Solver
+	fninfo         map[*ssa.Function]*fnInfo
+	intrCache      map[*ssa.Function]intrFn
+	runs           int
 	wantValidation func(r *Run) bool
 }
 
